@@ -142,8 +142,8 @@ func gen(kind string) func(t *rapid.T) kvh.Case {
 	return func(t *rapid.T) kvh.Case {
 		c := kvh.Case{Kind: kind}
 		if kind == kvh.TreeBidi {
-			c.Cmp = dom.TotalCmps[rapid.IntRange(0, 2).Draw(t, "cmp")]
-			c.VCmp = dom.TotalCmps[rapid.IntRange(0, 2).Draw(t, "vcmp")]
+			c.Cmp = dom.TotalCmps[rapid.IntRange(0, len(dom.TotalCmps)-1).Draw(t, "cmp")]
+			c.VCmp = dom.TotalCmps[rapid.IntRange(0, len(dom.TotalCmps)-1).Draw(t, "vcmp")]
 		}
 		hi := []int{2, 5, 5, 12}[rapid.IntRange(0, 3).Draw(t, "range")]
 		n := rapid.IntRange(0, 40).Draw(t, "n")
